@@ -83,6 +83,7 @@ pub fn main(args: &Args) -> i32 {
         replay: 3,
         immediate: 1,
         side: 5,
+        reinvite: true,
         ..Weights::default()
     };
     let spec = Spec {
